@@ -1095,3 +1095,78 @@ func canonCommutative(block []byte) []byte {
 	}
 	return out.Bytes()
 }
+
+// twin assignments: two if statements of one function with the same condition text whose bodies are one assignment
+// to the same place: the right-hand sides are the same token sequence up to a one-to-one renaming of identifiers.
+type twinAssign struct {
+	Fi   *core.FuncInfo
+	Pos  token.Pos
+	Key  string
+	Text string
+}
+
+func twinAssignIssues(p *core.Prog, pkgs []*packages.Package) (issues []twinAssign, npairs int) {
+	for _, pk := range pkgs {
+		for _, fi := range p.Funcs(pk) {
+			if fi.Decl.Body == nil {
+				continue
+			}
+			type ent struct {
+				ifs *ast.IfStmt
+				as  *ast.AssignStmt
+			}
+			groups := map[string][]ent{}
+			ast.Inspect(fi.Decl.Body, func(n ast.Node) bool {
+				ifs, ok := n.(*ast.IfStmt)
+				if !ok || ifs.Else != nil || ifs.Init != nil || len(ifs.Body.List) != 1 {
+					return true
+				}
+				as, ok := ifs.Body.List[0].(*ast.AssignStmt)
+				if !ok || len(as.Lhs) != 1 || len(as.Rhs) != 1 || as.Tok != token.ASSIGN {
+					return true
+				}
+				k := exprStr(ifs.Cond) + " ⇒ " + exprStr(as.Lhs[0])
+				groups[k] = append(groups[k], ent{ifs, as})
+				return true
+			})
+			for k, g := range groups {
+				if len(g) < 2 {
+					continue
+				}
+				for i := 1; i < len(g); i++ {
+					npairs++
+					ta, ia := exprTokens(fi.Pkg.Fset, g[0].as.Rhs[0])
+					tb, ib := exprTokens(fi.Pkg.Fset, g[i].as.Rhs[0])
+					bad := ""
+					if len(ta) != len(tb) {
+						bad = "different shapes"
+					} else {
+						fwd, bwd := map[string]string{}, map[string]string{}
+						for x := range ta {
+							if ia[x] != ib[x] || (!ia[x] && ta[x] != tb[x]) {
+								bad = fmt.Sprintf("%s against %s", ta[x], tb[x])
+								break
+							}
+							if !ia[x] {
+								continue
+							}
+							if pv, ok := fwd[ta[x]]; ok && pv != tb[x] {
+								bad = fmt.Sprintf("%s becomes both %s and %s", ta[x], pv, tb[x])
+								break
+							}
+							if pv, ok := bwd[tb[x]]; ok && pv != ta[x] {
+								bad = fmt.Sprintf("both %s and %s become %s", pv, ta[x], tb[x])
+								break
+							}
+							fwd[ta[x]], bwd[tb[x]] = tb[x], ta[x]
+						}
+					}
+					if bad != "" {
+						issues = append(issues, twinAssign{fi, g[i].ifs.Pos(), fmt.Sprintf("twin-assign:%s:if %s", fname(fi), k), fmt.Sprintf("%s vs %s (%s)", exprStr(g[0].as.Rhs[0]), exprStr(g[i].as.Rhs[0]), bad)})
+					}
+				}
+			}
+		}
+	}
+	return
+}
